@@ -31,7 +31,8 @@ ASSUMPTIONS = [
     "the diff passed to the formatter is the absolute Interval diff() builds: non-negative canonical components (C06), invert == instance later than the reference",
     "Locale.get/Locale.load are pure look-ups: executed natively on their concrete arguments (the real code, not a model); the plural rules - lambdas in the locale data files - are executed from their source",
     "str.format: only the placeholder structure is checked (positional fields exist); the rendered text is abstract",
-    "Duration.in_words / Interval.in_words (2^7 x plural-class paths), Locale.ordinalize and the locale tokens of format() are checked bounded: all 27 locales x units x counts",
+    "Duration.in_words / Interval.in_words (2^7 x plural-class paths), Locale.ordinalize and the locale tokens of format() are checked bounded: all 27 locales x units x counts, the plural class and the single-unit phrase compared with the rule and template read directly from the locale's data module",
+    "the count-and-unit clause is stated on the phrase that carries the count: the result itself, or - relative to another value - the inner phrase that custom.before/after wraps",
 ]
 EXPLANATION = "DifferenceFormatter.format is executed symbolically for each of the 27 shipped locales with symbolic components and flags: no exception, a non-empty template with positional placeholders, the direction marker matches (invert, is_now, absolute), the count is the documented rounding of the largest unit."
 
@@ -43,7 +44,7 @@ def bounded(ctx):
 
 
 MANIFEST_ENTRY = {
-    "text": "DifferenceFormatter.format is proved, separately for each of the 27 shipped locales (real locale data, plural rules executed from their source) and for all component values and flag combinations, to return a non-empty translation template whose placeholders are positional (no KeyError/TypeError/IndexError), to carry the past/future/before/after marker exactly according to (invert, is_now) and none when absolute, and to show a count that is the largest non-zero unit's value or one more, at least 1.",
+    "text": "DifferenceFormatter.format is proved, separately for each of the 27 shipped locales (real locale data, plural rules executed from their source) and for all component values and flag combinations, to return a non-empty translation template whose placeholders are positional (no KeyError/TypeError/IndexError), to carry the past/future/before/after marker exactly according to (invert, is_now) and none when absolute, and to show the largest non-zero unit itself (the unit named by the translation key) with a count that is that unit's value or one more, at least 1 (eleven months and more than 15 days: '1 year').",
     "note": "Trusted: pyvc, z3/cvc5. Locale look-ups run natively on concrete keys. Bounded (not proved): in_words, ordinalize, locale-dependent format tokens - exhaustive over locales x units x counts 0..1000 in the thorough tier. One genuine defect found by a refuted obligation and fixed (zh templates, 9a2dca6).",
     "technique": "contract-based deductive verification per locale (symbolic execution of the real formatter over the real locale data, z3/cvc5); bounded exhaustive enumeration for in_words/ordinalize/tokens",
     "design_ref": "DESIGN.md section 8 (C18)",
